@@ -32,7 +32,7 @@ fn exhaustive_lines(max_atoms: u32) -> u64 {
 fn plan(tier: Tier) -> Plan {
     match tier {
         Tier::Quick => Plan {
-            cases: exhaustive_lines(4) + 8_000,
+            cases: exhaustive_lines(4) + 60_000,
             time_cap_s: 40,
             case_timeout_s: 10,
             exhaustive: false,
